@@ -48,6 +48,7 @@ type VC struct {
 	quiet    bool            // suppress obligations (spec-side pure evaluation)
 	inQuant  int             // >0 while evaluating a quantifier body
 	defs     map[string]string
+	lemma    map[int]bool // assumption indices that are proved-elsewhere lemmas
 	curPos   token.Pos
 }
 
@@ -131,6 +132,15 @@ func (vc *VC) oblige(st *State, name, kind string, cond Term, clause string) {
 		Name: name, Kind: kind, Goal: tImp(st.pc, cond), NAssume: len(vc.assumes),
 		Pos: vc.p.pos(vc.curPos), Func: vc.fnKey, Clause: clause,
 	})
+	// assert-then-assume: later obligations at this point may use this one as a
+	// lemma (it has its own query)
+	if cond != tTrue && vc.inQuant == 0 {
+		if vc.lemma == nil {
+			vc.lemma = map[int]bool{}
+		}
+		vc.lemma[len(vc.assumes)] = true
+		vc.assumes = append(vc.assumes, tImp(st.pc, cond))
+	}
 }
 
 func (vc *VC) errorf(format string, a ...interface{}) {
@@ -448,6 +458,7 @@ func (vc *VC) loadAt(st *State, ref, off Term, t types.Type) Val {
 		h := vc.get(st, vc.heapKey(k))
 		v.S = append(v.S, tSel2(h, ref, tAdd(off, tInt(int64(i)))))
 	}
+	vc.fixOffsets(t, v.S, 0)
 	return v
 }
 
@@ -456,10 +467,20 @@ func (vc *VC) storeAt(st *State, ref, off Term, val Val) {
 	if len(lay.Kinds) != len(val.S) {
 		panic(fmt.Sprintf("storeAt: layout mismatch %v: %d vs %d", val.T, len(lay.Kinds), len(val.S)))
 	}
+	// one update of the object per kind (nested tSto2 would duplicate terms)
+	byKind := map[Kind]Term{}
+	var order []Kind
 	for i, k := range lay.Kinds {
+		obj, ok := byKind[k]
+		if !ok {
+			obj = tSel(vc.get(st, vc.heapKey(k)), ref)
+			order = append(order, k)
+		}
+		byKind[k] = tSto(obj, tAdd(off, tInt(int64(i))), val.S[i])
+	}
+	for _, k := range order {
 		key := vc.heapKey(k)
-		h := vc.get(st, key)
-		vc.set(st, key, tSto2(h, ref, tAdd(off, tInt(int64(i))), val.S[i]))
+		vc.set(st, key, tSto(vc.get(st, key), ref, byKind[k]))
 	}
 }
 
@@ -494,6 +515,7 @@ func (vc *VC) freshVal(prefix string, t types.Type) Val {
 	for i, k := range lay.Kinds {
 		v.S = append(v.S, vc.fresh(fmt.Sprintf("%s.%d", prefix, i), k.Sort()))
 	}
+	vc.fixOffsets(t, v.S, 0)
 	return v
 }
 
@@ -549,7 +571,19 @@ func (vc *VC) wellTypedAt(st *State, t types.Type, s []Term, depth int) Term {
 				if hs := vc.p.holderTypes(u.Elem()); hs != nil {
 					var alts []Term
 					for _, h := range hs {
-						alts = append(alts, tEq(sx("dtype", s[0]), tInt(int64(vc.p.typeID(h)))))
+						dt := tEq(sx("dtype", s[0]), tInt(int64(vc.p.typeID(h))))
+						// offsets at which the pointee can sit inside the holder
+						if _, isSt := h.Underlying().(*types.Struct); isSt {
+							offs := vc.p.offsetsOf(h, u.Elem(), 0, 0)
+							if len(offs) > 0 && len(offs) <= 8 {
+								var os []Term
+								for _, o := range offs {
+									os = append(os, tEq(s[1], tInt(int64(o))))
+								}
+								dt = tAnd(dt, tOr(os...))
+							}
+						}
+						alts = append(alts, dt)
 					}
 					c = append(c, tOr(alts...), tLe("0", s[1]))
 				}
@@ -654,6 +688,7 @@ func (vc *VC) mapGetRaw(st *State, m Term, k Val, vt types.Type) Val {
 		a := vc.get(st, vc.mapValKey(k.T, kd))
 		v.S = append(v.S, tSel(tSel2(a, m, kt), tInt(int64(i))))
 	}
+	vc.fixOffsets(vt, v.S, 0)
 	return v
 }
 
@@ -734,4 +769,37 @@ func zeroArr(k Kind) Term {
 		return "zarrT"
 	}
 	panic("zeroArr")
+}
+
+// fixOffsets replaces the offset slot of pointers to root-only types by the
+// constant 0 (their typing fact says off == 0); keeps terms and triggers simple.
+func (vc *VC) fixOffsets(t types.Type, s []Term, depth int) {
+	t = types.Unalias(t)
+	if depth > 4 || isNamed(t, "time", "Time") || isNamed(t, "sync", "Mutex") || isNamed(t, "sync", "RWMutex") {
+		return
+	}
+	switch u := t.Underlying().(type) {
+	case *types.Pointer:
+		if vc.p.rootOnly(u.Elem()) && len(s) == 2 {
+			s[1] = "0"
+		}
+	case *types.Struct:
+		off := 0
+		for i := 0; i < u.NumFields(); i++ {
+			n := vc.p.lay.size(u.Field(i).Type())
+			if off+n <= len(s) {
+				vc.fixOffsets(u.Field(i).Type(), s[off:off+n], depth+1)
+			}
+			off += n
+		}
+	case *types.Tuple:
+		off := 0
+		for i := 0; i < u.Len(); i++ {
+			n := vc.p.lay.size(u.At(i).Type())
+			if off+n <= len(s) {
+				vc.fixOffsets(u.At(i).Type(), s[off:off+n], depth+1)
+			}
+			off += n
+		}
+	}
 }
